@@ -17,7 +17,7 @@ import ast
 
 from .. import nodewalk, paths, tables
 from ..model import AnalysisError, Project, self_attr, walk_no_nested
-from ..report import Result
+from ..report import Result, ctx_of
 from .common import site, src
 
 PROP = 'C09'
@@ -48,6 +48,7 @@ def run(p: Project, tier: str) -> Result:
                      'that can_put is exact (C11.R1 for Buffer/Fleet)']
     pushers = []
     for w in nodewalk.walks(p):
+        r.ctx = ctx_of(w)
         r.paths += w.npaths
         for root, ps in w.roots.items():
             fi = w.root_funcs[root]
